@@ -54,6 +54,7 @@ type Failure struct {
 	name string
 	msg  string
 	pos  string
+	goal *Term    // the violated condition's negation (assert failures)
 	fn   string   // innermost non-harness function of the repository on the stack
 	stack []string
 }
